@@ -89,6 +89,7 @@ func main() {
 	}
 	extra(out)
 	extra2(out)
+	extra3(out)
 }
 
 // extra adds k10..k17 (leaves of the CA reusing k8's key, common names of 1..8 extra characters so that the
@@ -210,4 +211,69 @@ func extra2(out string) {
 	}
 	write(out, "k20", k9, der2)
 	fmt.Println(19, 20, "short validity", len(der), len(der2))
+}
+
+
+// extra3 adds k21..k23: self-signed certificates whose distinguished names are encoded the way other tools encode
+// them, so that re-encoding the parsed name does not reproduce the bytes: UTF8String values with CN before O
+// (OpenSSL's default), an emailAddress (IA5String) and a domainComponent attribute, and a multi-valued RDN.
+func extra3(out string) {
+	if _, err := os.Stat(out + "/k21.key.pem"); err == nil {
+		return
+	}
+	type atv struct {
+		Type  asn1.ObjectIdentifier
+		Value asn1.RawValue
+	}
+	type rdn []atv
+	str := func(tag int, s string) asn1.RawValue { return asn1.RawValue{Class: asn1.ClassUniversal, Tag: tag, Bytes: []byte(s)} }
+	name := func(rdns ...rdn) []byte {
+		var seq []byte
+		for _, r := range rdns {
+			var set []byte
+			for _, a := range r {
+				b, err := asn1.Marshal(a)
+				if err != nil {
+					panic(err)
+				}
+				set = append(set, b...)
+			}
+			b, err := asn1.Marshal(asn1.RawValue{Class: asn1.ClassUniversal, Tag: asn1.TagSet, IsCompound: true, Bytes: set})
+			if err != nil {
+				panic(err)
+			}
+			seq = append(seq, b...)
+		}
+		b, err := asn1.Marshal(asn1.RawValue{Class: asn1.ClassUniversal, Tag: asn1.TagSequence, IsCompound: true, Bytes: seq})
+		if err != nil {
+			panic(err)
+		}
+		return b
+	}
+	cn, o, ou := asn1.ObjectIdentifier{2, 5, 4, 3}, asn1.ObjectIdentifier{2, 5, 4, 10}, asn1.ObjectIdentifier{2, 5, 4, 11}
+	email, dc := asn1.ObjectIdentifier{1, 2, 840, 113549, 1, 9, 1}, asn1.ObjectIdentifier{0, 9, 2342, 19200300, 100, 1, 25}
+	names := [][]byte{
+		name(rdn{{cn, str(asn1.TagUTF8String, "sim öpenssl style")}}, rdn{{o, str(asn1.TagUTF8String, "verif sim")}}),
+		name(rdn{{dc, str(asn1.TagIA5String, "example")}}, rdn{{o, str(asn1.TagPrintableString, "verif sim")}}, rdn{{cn, str(asn1.TagPrintableString, "sim mail")}}, rdn{{email, str(asn1.TagIA5String, "keys@example.invalid")}}),
+		name(rdn{{o, str(asn1.TagPrintableString, "verif sim")}}, rdn{{cn, str(asn1.TagPrintableString, "sim multi")}, {ou, str(asn1.TagPrintableString, "unit 7")}}),
+	}
+	for i, raw := range names {
+		key, _ := rsa.GenerateKey(rand.Reader, 2048)
+		t := &x509.Certificate{
+			SerialNumber: big.NewInt(int64(0x5001 + i)), RawSubject: raw,
+			NotBefore: time.Date(1999, 1, 1, 0, 0, 0, 0, time.UTC), NotAfter: time.Date(2099, 1, 1, 0, 0, 0, 0, time.UTC),
+			KeyUsage: x509.KeyUsageDigitalSignature, ExtKeyUsage: []x509.ExtKeyUsage{x509.ExtKeyUsageCodeSigning},
+		}
+		der, err := x509.CreateCertificate(rand.Reader, t, t, &key.PublicKey, key)
+		if err != nil {
+			panic(err)
+		}
+		c, err := x509.ParseCertificate(der)
+		if err != nil {
+			panic(err)
+		}
+		re, _ := asn1.Marshal(c.Issuer.ToRDNSequence())
+		fmt.Println(21+i, "foreign DN encoding; re-encoding the parsed issuer reproduces the bytes:", string(re) == string(c.RawIssuer), len(der))
+		write(out, fmt.Sprint("k", 21+i), key, der)
+	}
 }
